@@ -127,9 +127,24 @@ class Prober:
                 return v
         return None
 
-    def render(self, name, S, E, paths):
+    def history(self, n=4):
+        """complete, in-domain syscalls of the same thread that happened BEFORE the one under test"""
+        names = sorted(k for k in AUDIT if k.startswith('BSC_') and AUDIT[k].get('cls') == 'SYS0')
+        out = []
+        for _ in range(n):
+            nm = 'BSC_umask' if self.rnd.random() < 0.35 else self.rnd.choice(names + ['BSC_sys_fcntl', 'BSC_setsid'])
+            S = list(self.w.words(nm, 'start'))
+            if nm == 'BSC_umask':
+                S[0] = self.rnd.choice([0o22, 0o77, 0o777, 0o7777, (1 << 64) - 1])
+            out.append((nm, S, self.w.words(nm, 'end')))
+        return out
+
+    def render(self, name, S, E, paths, prefix=()):
         w = self.w
-        stream = [w.sys(name, 1, 1, tuple(S))]
+        stream = []
+        for nm, pS, pE in prefix:
+            stream += [w.sys(nm, 1, 1, tuple(pS)), w.sys(nm, 2, 1, tuple(pE))]
+        stream.append(w.sys(name, 1, 1, tuple(S)))
         for p in paths:
             stream += w.lookup(1, p, vid=7)
         stream.append(w.sys(name, 2, 1, tuple(E)))
@@ -192,6 +207,10 @@ def label(pr, name, S, E, paths, nalt=2):
         p2 = list(paths)
         p2[j] = paths[j] + b'Z'
         diff('l', j, S, E, p2)
+    # the rendering is a function of the operation's own records: earlier operations of the thread change nothing
+    hist = pr.history()
+    t_hist = pr.render(name, S, E, paths, prefix=hist)
+    history_dep = t_hist != base
     params = []
     for i in range(n):
         tok = P0[i]
@@ -216,5 +235,6 @@ def label(pr, name, S, E, paths, nalt=2):
                 if numval(runs[0][1][i]) in forms(runs[0][0][j]):
                     kind = 'num-unstable'
         params.append({'pos': i, 'kind': kind, 'ds': sorted(ds[i]), 'de': sorted(de[i]), 'dl': sorted(dl[i]), 'eq': e})
-    return {'name': name, 'shaped': True, 'fname': fname, 'unstable': unstable, 'params': params,
+    return {'name': name, 'shaped': True, 'fname': fname, 'unstable': unstable or history_dep, 'params': params,
+            'history_dep': history_dep, 'history': [h[0] for h in hist] if history_dep else [], 'text_after_history': t_hist if history_dep else '',
             'res': {'ds': sorted(res_ds), 'de': sorted(res_de), 'dl': sorted(res_dl)}, 'text': base}
